@@ -77,11 +77,11 @@ class AbstractOnlineUpdateVisitor(AbstractAstVisitor):
         return sample_return
 
     def visitBinary(self, node, online_operator_dict, var_object_dict):
+        sample_left  = self.visit(node.children[0], online_operator_dict, var_object_dict)
+        sample_right = self.visit(node.children[1], online_operator_dict, var_object_dict)
         if node.name in self.updated:
             sample_return = self.updated[node.name]
         else:
-            sample_left  = self.visit(node.children[0], online_operator_dict, var_object_dict)
-            sample_right = self.visit(node.children[1], online_operator_dict, var_object_dict)
             operator = online_operator_dict[node.name]
             sample_return = operator.update(sample_left, sample_right)
             self.updated[node.name] = sample_return
@@ -89,10 +89,10 @@ class AbstractOnlineUpdateVisitor(AbstractAstVisitor):
         return sample_return
 
     def visitUnary(self, node, online_operator_dict, var_object_dict):
+        sample = self.visit(node.children[0], online_operator_dict, var_object_dict)
         if node.name in self.updated:
             sample_return = self.updated[node.name]
         else:
-            sample = self.visit(node.children[0], online_operator_dict, var_object_dict)
             op = online_operator_dict[node.name]
             sample_return = op.update(sample)
             self.updated[node.name] = sample_return
